@@ -43,8 +43,9 @@ def case(draw):
             prior.append({"op": "delete", "name": n})
         else:
             prior.append({"op": "put", "name": n, "body": enc_body(draw(st.sampled_from(bodies[n])))})
-    if draw(st.booleans()):
-        prior.append({"op": "prop", "prop": draw(st.sampled_from(PROPS[:3])), "value": draw(st.sampled_from(["Old name", "#112233", "An old description"]))})
+    # properties set earlier (and acknowledged): none of them may be lost by a crash during a later write
+    for pp in draw(st.lists(st.sampled_from(PROPS[:3]), max_size=3, unique=True)):
+        prior.append({"op": "prop", "prop": pp, "value": {"displayname": "Old name", "color": "#112233", "description": "An old description"}[pp]})
     kind = draw(st.sampled_from(["create", "replace", "replace", "noop", "delete", "prop", "prop", "first"]))
     if kind == "first":
         prior = []
@@ -247,7 +248,7 @@ def run_case(cs):
         ckey = hashlib.sha1(json.dumps(cs, sort_keys=True).encode()).hexdigest()[:12]
         for k in range(1, n + 1):
             ev, rel, _ = events[k - 1]
-            variants = ["before"] + (["truncated", "half"] if ev == "open" and not rel.endswith(".lock") else [])
+            variants = ["before"] + (["truncated", "half"] if ev == "open" and not rel.endswith(".lock") else []) + (["after"] if ev in ("os.rename", "os.replace") else [])
             for variant in variants:
                 crash.copy_store(prior, work)
                 res, info = crash.run_in_child(work, fn, target=k, variant=variant)
